@@ -53,7 +53,7 @@ theorem resolveInputs_ok_iff (seen : List OutPoint) (p : Provider) (l cur : List
         simp [this]
       | ok g =>
         have hu : Usable seen p op := (resolveCell_ok_iff seen p op).1 ⟨g, hr⟩
-        simp only [ih, List.nodup_cons, List.mem_cons, List.mem_append, List.mem_singleton]
+        simp only [ih, List.nodup_cons, List.mem_cons, List.mem_append, List.not_mem_nil, or_false]
         constructor
         · rintro ⟨h1, h2, h3⟩
           refine ⟨⟨fun hm => (h2 op hm) (Or.inr rfl), h1⟩, ?_, ?_⟩
@@ -152,7 +152,7 @@ theorem resolveDeps_ok_iff (seen : List OutPoint) (p : Provider) (ds : List Dep)
               constructor
               · rintro ⟨r, hr⟩; cases hr
               · rintro ⟨⟨⟨_, h1⟩, _⟩, _⟩
-                obtain ⟨ms', e1, e2⟩ := h1 rfl
+                obtain ⟨ms', e1, e2⟩ := h1 trivial
                 cases e1; exact absurd e2 this
             | ok u =>
               have hall := (resolveMembers_ok_iff seen p ms).1 (by cases u; exact hm)
